@@ -184,3 +184,71 @@ func VH_C14_panic_entry() {
 	zzverif.Assert(len(f.gotErr) == n0+1, "the event after a failed panic-level event is written")
 	zzverif.Reach("C14/panic-entry")
 }
+
+// SyncWriter anywhere in the fan-out path keeps the level: in front of the whole MultiLevelWriter
+// or around a single (filtered) destination.
+func VH_C14_syncwriter() {
+	f0 := &vFaulty{id: 0, err: errors.New("d0")}
+	f1 := &vFaulty{id: 1, err: errors.New("d1")}
+	fl := vLevel()
+	var w io.Writer
+	switch zzverif.Choice(3) {
+	case 0:
+		w = SyncWriter(MultiLevelWriter(f0, &FilteredLevelWriter{Writer: f1, Level: fl}))
+	case 1:
+		w = MultiLevelWriter(SyncWriter(f0), SyncWriter(&FilteredLevelWriter{Writer: f1, Level: fl}))
+	case 2:
+		w = MultiLevelWriter(f0, SyncWriter(&FilteredLevelWriter{Writer: f1, Level: fl}))
+	}
+	ErrorHandler = func(error) {}
+	l := New(w)
+	vSeq = nil
+	var lvl Level
+	switch zzverif.Choice(3) {
+	case 0:
+		lvl = DebugLevel
+		l.Debug().Msg("m")
+	case 1:
+		lvl = ErrorLevel
+		l.Error().Msg("m")
+	case 2:
+		lvl = NoLevel
+		l.Log().Msg("m")
+	}
+	zzverif.Assert(len(f0.failed) == 1, "fan-out through SyncWriter: the unfiltered destination receives the event once")
+	want := 0
+	if lvl >= fl {
+		want = 1
+	}
+	zzverif.Assert(len(f1.failed) == want, "fan-out through SyncWriter: the filtered destination receives exactly the events at or above its level")
+	for _, s := range vSeq {
+		zzverif.Assert(s.level == lvl, "fan-out through SyncWriter: destination receives the event's level")
+	}
+	zzverif.Reach("C14/syncwriter")
+}
+
+// Two goroutines, each logging one event whose write fails, while the ErrorHandler of the other
+// may still be running: ErrorHandler is invoked exactly once for EACH event.
+func VH_C14_concurrent_errors() {
+	handled := 0
+	ErrorHandler = func(err error) {
+		zzverif.Visible("errorhandler") // a handler takes time: other goroutines run meanwhile
+		handled++
+		zzverif.Visible("errorhandler")
+	}
+	l := New(vAlwaysFails{})
+	done := make(chan struct{})
+	go func() {
+		zzverif.RegisterThread(1)
+		l.Warn().Msg("b")
+		close(done)
+	}()
+	l.Warn().Msg("a")
+	<-done
+	zzverif.Assert(handled == 2, "ErrorHandler is invoked exactly once for each event whose write failed, also when two events fail at the same time")
+	zzverif.Reach("C14/concurrent-errors")
+}
+
+type vAlwaysFails struct{}
+
+func (vAlwaysFails) Write(p []byte) (int, error) { return 0, errV }
